@@ -429,7 +429,7 @@ type C14Svc struct {
 }
 
 func genC14Svc(t *rapid.T) C14Svc {
-	return C14Svc{Cipher: rapid.SampledFrom(kit.AllCiphers).Draw(t, "cipher"), TimeoutMs: rapid.SampledFrom([]int{0, 0, 3000, 60000}).Draw(t, "timeout"),
+	return C14Svc{Cipher: rapid.SampledFrom(kit.AllCiphers).Draw(t, "cipher"), TimeoutMs: rapid.SampledFrom([]int{0, 0, 300, 500, 3000, 60000}).Draw(t, "timeout"),
 		DelayMs: rapid.SampledFrom([]int{0, 150, 400, 900}).Draw(t, "delay"), Seed: rapid.Int64Range(1, 1<<40).Draw(t, "seed")}
 }
 
@@ -440,7 +440,11 @@ func runC14Svc(c C14Svc, info *kit.Info) *kit.Finding {
 		return nil
 	}
 	ks := kit.KeySpec{ID: "user", Cipher: c.Cipher, Secret: "assembled-service"}
-	opts := []service.Option{service.WithCiphers(kit.NewCipherList([]kit.KeySpec{ks})), service.WithMetrics(&kit.RecService{})}
+	met := &kit.RecService{}
+	opts := []service.Option{service.WithCiphers(kit.NewCipherList([]kit.KeySpec{ks})), service.WithMetrics(met)}
+	if c.TimeoutMs > 0 && c.TimeoutMs <= 1000 {
+		c.DelayMs = min(c.DelayMs, c.TimeoutMs/3) // the reply comes inside the (short) configured timeout
+	}
 	if c.TimeoutMs > 0 {
 		opts = append(opts, service.WithNatTimeout(time.Duration(c.TimeoutMs)*time.Millisecond))
 	}
@@ -483,7 +487,15 @@ func runC14Svc(c C14Svc, info *kit.Info) *kit.Finding {
 	if _, plain, err := kit.UnpackUDP(key, r.Data); err != nil || !bytes.HasSuffix(plain, []byte("pong")) {
 		return kit.Violation("nat:reply-corrupt", "reply does not decrypt to the target's payload (%v)", err)
 	}
-	info.NonTrivial, info.Steps = c.DelayMs > 0, 2
+	if c.TimeoutMs > 0 && c.TimeoutMs <= 1000 {
+		// a configured timeout is the one that applies: the idle association is torn down within bounded time
+		to := time.Duration(c.TimeoutMs) * time.Millisecond
+		if !kit.WaitFor(to+3*time.Second, func() bool { a := met.UDPAssocs(); return len(a) == 1 && a[0].Removed() == 1 }) {
+			return kit.Violation("nat:not-expired", "the service was given a NAT timeout of %v; %v after the last traffic its association is still not reported removed", to, to+3*time.Second)
+		}
+		info.Class("configured-timeout-expires")
+	}
+	info.NonTrivial, info.Steps = c.DelayMs > 0 || c.TimeoutMs > 0, 2
 	return nil
 }
 
